@@ -70,6 +70,18 @@ Theorem C25_pool_sessions_crash_consistent : forall fk scale ss s h k l,
   lists_world l (crash (rs_log s') k) ->
   crash_consistent fk (rs_recs s') k (crash (rs_log s') k) l.
 Proof. exact pool_sessions_crash_consistent. Qed.
+(* The seed of the next session's specification is the crash world itself, and that world is db_eq,
+   database by database, to r_snap of the record the recovery reported (crash_consistent at l := the
+   world): "contents at that flush" in later sessions is not relative to anything but completed flushes. *)
+Theorem C25_pool_restart_seed : forall fk scale ss s h k o s2,
+  sessions_avoid fk ss = true -> run_sessions fk scale run_init ss = Some s ->
+  history_avoids fk h = true ->
+  let s1 := fold_left (run_step fk scale) h s in
+  restart_pool fk s1 k o = Some s2 ->
+  sp_dbs (rs_spec s2) = crash (rs_log s1) k /\
+  crash_consistent fk (rs_recs s1) k (crash (rs_log s1) k) (crash (rs_log s1) k).
+Proof. exact pool_restart_seed. Qed.
+
 (* The flagged producer, two sessions; the first flush of the second session must not re-use the ID
    the recovery reported. *)
 Theorem C25_flagged_two_sessions : forall fk h1 k1 o s1 h2 k l,
@@ -154,6 +166,7 @@ Print Assumptions C25_pool_crash_consistent.
 Print Assumptions C25_flagged_crash_consistent.
 Print Assumptions C25_flagged_crash_consistent_any_ids.
 Print Assumptions C25_pool_sessions_crash_consistent.
+Print Assumptions C25_pool_restart_seed.
 Print Assumptions C25_flagged_two_sessions.
 Print Assumptions C25_pool_crash_consistent_expected.
 Print Assumptions C25_flagged_crash_consistent_expected.
